@@ -139,13 +139,13 @@ Inductive jchars : bytes -> Prop :=
 Inductive jstring : bytes -> Prop :=
 | js_intro : forall c, jchars c -> jstring (34 :: c ++ [34]).
 
-Definition is_dig (b : N) : bool := (48 <=? b) && (b <=? 57).
-Definition digits1 (l : bytes) : Prop := l <> [] /\ forallb is_dig l = true.
+(* DIGIT = Bytes.is_digit *)
+Definition digits1 (l : bytes) : Prop := l <> [] /\ forallb is_digit l = true.
 
 (* int = zero / ( digit1-9 *DIGIT ) *)
 Inductive jint : bytes -> Prop :=
 | ji_zero : jint [48]
-| ji_nz : forall c tl, 49 <= c <= 57 -> forallb is_dig tl = true -> jint (c :: tl).
+| ji_nz : forall c tl, 49 <= c <= 57 -> forallb is_digit tl = true -> jint (c :: tl).
 
 (* number = [ minus ] int [ frac ] [ exp ] *)
 Inductive jfrac : bytes -> Prop :=
